@@ -14,7 +14,7 @@ const (
 	Down     = "down"     // strictly decreasing
 	Ties     = "ties"     // values drawn from a 3-5 element alphabet
 	Plateau  = "plateau"  // repeated extremes inside windows
-	Spike    = "spike"    // a walk with one 1000x outlier bar
+	Spike    = "spike"    // a walk with one 64x outlier bar
 	Dyadic   = "dyadic"   // multiples of 1/8 in [1,512]: sums exact in float64
 	Degen    = "degen"    // valid but degenerate bars: high==low stretches, zero volume days, close==high/low
 	ZeroNeg  = "zeroneg"  // numeric only: integers in [-9,9] (zeros and negatives)
@@ -72,7 +72,7 @@ func Bars(r *Rand, class string, n int) []Bar {
 				b = round2Bar(b)
 			}
 			if i == spikeAt {
-				f := 1000.0
+				f := 64.0
 				b.O, b.H, b.L, b.C = b.O*f, b.H*f, b.L*f, b.C*f
 			}
 			if class == Degen {
